@@ -115,3 +115,31 @@ func (m Map[K, V]) VerifGen() int { return m.t.gen }
 
 // VerifGen returns the structure generation counter of the tree behind s.
 func (s Set[T]) VerifGen() int { return s.t.gen }
+
+func verifShape[K any, V any](t *btree[K, V]) (depth int, nodes int) {
+	var visit func(x *node[K, V], d int)
+	visit = func(x *node[K, V], d int) {
+		nodes++
+		if d > depth {
+			depth = d
+		}
+		if nodes > 1<<26 || x.children[0] == nil {
+			return
+		}
+		for i := 0; i <= int(x.n) && i < branchFactor; i++ {
+			if x.children[i] != nil {
+				visit(x.children[i], d+1)
+			}
+		}
+	}
+	if t.root != nil {
+		visit(t.root, 1)
+	}
+	return depth, nodes
+}
+
+// VerifShape returns the number of levels and of nodes of the tree behind m, without copying.
+func (m Map[K, V]) VerifShape() (depth int, nodes int) { return verifShape(m.t) }
+
+// VerifShape returns the number of levels and of nodes of the tree behind s, without copying.
+func (s Set[T]) VerifShape() (depth int, nodes int) { return verifShape(s.t) }
